@@ -647,6 +647,116 @@ def shrink_driver(case):
         yield [labels, ds, b'', exe]
 
 
+# ------------------------------------------------------------------ leg flow: what REACHES the key functions
+# steps = [exe, kind, version, env, extra files, ppmode]; all steps of a case run in one process and one directory.
+FULL_VERSIONS = [
+    [b'"Ubuntu Clang 16.0.6 (23ubuntu4)"', b'"Debian Clang 16.0.6 (1)"', b'"Clang 16.0.6 (https://github.com/llvm/llvm-project 7cbf1a25)"',
+     b'"16.0.6"', b'16.0.6', b'"Clang 16.0.6 (https://github.com/llvm/llvm-project 0b2e3d1f)"'],
+    [b'"13.2.1 20230801 (Red Hat 13.2.1-1)"', b'"13.2.1 20230801"', b'"13.2.1 20231205 (Red Hat 13.2.1-6)"', b'"13.2.1"'],
+    [b'"4.2.1 Compatible Apple LLVM 15.0.0 (clang-1500.3.9.4)"', b'"4.2.1 Compatible Apple LLVM 15.0.0 (clang-1500.1.0.2.5)"'],
+]
+
+
+def gen_flow(rng, tier):
+    out = []
+    both = allow_list('allow_pp') + [k for k in allow_list('allow_main') if k not in allow_list('allow_pp')]
+    noise = [[b'HOME', b'/root'], [b'PATH', b'/usr/bin']]
+    reps = 1 if tier == 'quick' else 6
+    for rep_i in range(reps):
+        # (A) every variable on either allow-list: unset / empty / two values, with and without preprocessor-cache mode
+        for K in both:
+            kind = rng.choice([b'clang', b'clang++', b'gcc', b'g++'])
+            v = [rng.choice(rng.choice(FULL_VERSIONS))]
+            steps, labels = [], []
+            for pm in (0, 1):
+                for lab, env in ((b'unset', noise), (b'empty', noise + [[K, b'']]), (b'value', [[K, b'/opt/a']] + noise),
+                                 (b'value2', noise + [[K, b'/opt/b']]), (b'noise', [[b'HOME', b'/home/u']] + noise[1:]),
+                                 (b'reordered', list(reversed(noise)) + [[K, b'/opt/a']])):
+                    steps.append([kind, kind, v, env, [], pm])
+                    labels.append(lab + (b'-pp' if pm else b''))
+            out.append([labels, steps])
+        # (B) one binary, versions that differ only around the first dotted number
+        for fam in FULL_VERSIONS:
+            kind = rng.choice([b'clang', b'clang++', b'gcc', b'g++', b'apple-clang'])
+            steps, labels = [], []
+            for pm in (0, 1):
+                for ver in fam:
+                    steps.append([kind, kind, [ver], noise, [], pm])
+                    labels.append(b'version' + (b'-pp' if pm else b''))
+            out.append([labels, steps])
+        # (C) extra hashed files rewritten between requests of one process: same size + same (old) mtime, same size +
+        #     new mtime, other size, and back
+        for nfiles in (1, 2):
+            t = 1600000000 + rng.below(1000)
+            a, b, c = b'fun:alpha\n', b'fun:gamma\n', b'fun:alphabet\n'
+            seq = [(b'first', a, t), (b'same-size-same-mtime', b, t), (b'same-size-new-mtime', a, t + 7),
+                   (b'other-size', c, t + 7), (b'back', a, t), (b'again', a, t)]
+            for pm in (0, 1):
+                steps, labels = [], []
+                for lab, content, mt in seq:
+                    files = [[b'e0.txt', content, mt]]
+                    if nfiles == 2:
+                        files.append([b'e1.txt', b'src:*\n', t])
+                    steps.append([b'clang', b'clang', [b'"16.0.6"'], noise, files, pm])
+                    labels.append(lab)
+                out.append([labels, steps])
+    return out
+
+
+def flow_views(st):
+    exe, kind, ver, env, files, pm = st
+    am, ap = allow_list('allow_main'), allow_list('allow_pp')
+    base = (kind.endswith(b'++'), tuple(ver), tuple(f[1] for f in files), tuple(f[0] for f in files))
+    return (base + (tuple(sorted((k, v) for k, v in env if k in am)),),
+            base + (tuple(sorted((k, v) for k, v in env if k in ap)),))
+
+
+def monitor_flow(case, out):
+    labels, steps = case
+    vs = []
+    if not isinstance(out, list) or len(out) != len(steps):
+        return ['malformed implementation output %r' % (out,)]
+    for i, o in enumerate(out):
+        if not (isinstance(o, list) and len(o) == 2):
+            vs.append('step %d (%s): no key (%r)' % (i, labels[i].decode(), o))
+    views = [flow_views(st) for st in steps]
+    names = ('C++ driver', 'reported version', 'contents of the extra hashed files', 'extra file names', 'allow-listed environment')
+    for i in range(len(steps)):
+        for j in range(i + 1, len(steps)):
+            if not (isinstance(out[i], list) and isinstance(out[j], list) and len(out[i]) == 2 and len(out[j]) == 2):
+                continue
+            for which, what in ((0, 'result key'), (1, 'preprocessor-cache key')):
+                ki, kj = out[i][which], out[j][which]
+                if ki == b'none' or kj == b'none':
+                    if which == 1 and (ki == b'none') != (not steps[i][5]):
+                        vs.append('step %d: preprocessor-cache mode %d but manifest key %r' % (i, steps[i][5], ki))
+                    continue
+                a, b = views[i][which], views[j][which]
+                if a != b and ki == kj:
+                    diff = ', '.join(n for n, x, y in zip(names, a, b) if x != y)
+                    vs.append('generate_hash_key: steps %d (%s) and %d (%s) of one server process differ in [%s] (%r vs %r) but the %s '
+                              'that reaches the storage is the same: %s'
+                              % (i, labels[i].decode(), j, labels[j].decode(), diff,
+                                 [x for x, y in zip(a, b) if x != y], [y for x, y in zip(a, b) if x != y], what, ki.decode('latin-1')))
+                if a == b and ki != kj:
+                    vs.append('generate_hash_key: steps %d (%s) and %d (%s) agree on every hashed component but get different %ss'
+                              % (i, labels[i].decode(), j, labels[j].decode(), what))
+    return vs[:4]
+
+
+def shrink_flow(case):
+    labels, steps = case
+    if len(steps) > 2:
+        # keep the order (the steps share one process): every pair, earlier step first
+        for i in range(len(steps)):
+            for j in range(i + 1, len(steps)):
+                yield [[labels[i], labels[j]], [steps[i], steps[j]]]
+
+
+def stats_flow(case, out):
+    return ['step=' + l.decode() for l in case[0]]
+
+
 def gen_lp(rng, tier):
     out = [b'', b'a', b'\0', bytes(range(256)), b'=' * 61, b'x' * 255, b'x' * 256, b'x' * 257, b'y' * 65536, b'z' * 65537]
     for _ in range(3000 if tier == 'quick' else 30000):
@@ -869,6 +979,13 @@ def legs(tier):
                  'unhandled ids), all for ONE executable (same bytes, same version): real get_compiler_info through a '
                  'mock process creator, real parse_arguments + generate_hash_key; the model takes plusplus from the '
                  'translated table; a C and a C++ driver kind must never share the key'),
+        Leg('flow', gen_flow, monitor=monitor_flow, stats=stats_flow, shrink=shrink_flow, compare=lambda m, i: True,
+            rule='monitor-only leg (no model output): sequences of requests through the real get_compiler_info / '
+                 'parse_arguments / generate_hash_key in ONE process on a storage that records the manifest key: every '
+                 'variable of either allow-list unset/empty/two values/reordered with preprocessor-cache mode off and on; '
+                 'one binary with full version strings that share the first dotted number; extra hashed files rewritten '
+                 'between requests (same size + same old mtime, same size + new mtime, other size, back); keys must '
+                 'differ exactly when a hashed component differs'),
         Leg('ppkey-root', gen_ppkey_root, monitor=make_monitor('p'), classify=classify, stats=stats, shrink=shrink,
             compare=CHAIN,
             rule='the same leg inside a private root directory (chroot under /dev/shm), so that absolute paths which '
